@@ -122,7 +122,8 @@ C06_STAGES = [dict(name="c06worker", pkg="c06", test="TestC06Worker", access=[WO
 
 prop(
     id="C06",
-    stages=C06_STAGES + [dict(name="c06run", pkg="c06", test="TestC06Run", access=[WORKERS_ACCESS, RUN_ACCESS], timeout_quick=300, timeout_thorough=3000)],
+    stages=C06_STAGES + [dict(name="c06run", pkg="c06", test="TestC06Run", access=[WORKERS_ACCESS, RUN_ACCESS], timeout_quick=300, timeout_thorough=3000),
+                         dict(name="c06file", pkg="c06", test="TestC06FileCleanups", access=[WORKERS_ACCESS, RUN_ACCESS], timeout_quick=300, timeout_thorough=3000)],
     rule="generated scenario programs (cleanup tables of 0-5 cleanups that log, fail, panic or register; bodies/setups of 0-7 actions: register, Fail/Error/Errorf, "
          "FailNow/Fatal/Fatalf/require, panic with error/runtime error/string/int/struct, marks) executed (a) by the real ActiveScenario.Setup/Run on one worker handle, "
          "event log and per-iteration recorded outcome compared exactly with the model; (b) through whole Run.Do runs (users/constant x limit/duration/cancel) for the setup/teardown "
@@ -135,7 +136,8 @@ prop(
 
 prop(
     id="C07",
-    stages=C06_STAGES + [dict(name="c07runs", pkg="c07", test="TestC07Runs", access=[WORKERS_ACCESS, RUN_ACCESS], timeout_quick=300, timeout_thorough=3000)],
+    stages=C06_STAGES + [dict(name="c07runs", pkg="c07", test="TestC07Runs", access=[WORKERS_ACCESS, RUN_ACCESS], timeout_quick=300, timeout_thorough=3000),
+                         dict(name="c07late", pkg="c07", test="TestC07LateMark", access=[WORKERS_ACCESS, RUN_ACCESS], timeout_quick=300, timeout_thorough=3000)],
     rule="(a) as C06 (a): per-iteration outcomes of generated bodies on one worker vs the model's classification, T.Failed() at body entry must be false; "
          "(b) whole runs in every trigger mode with per-iteration-id outcome plans (pass, each failure API, require assertion, panics with error/string/int/struct/runtime error): "
          "planned counts vs Result totals vs exported sample counts through the extracted predicate c01_ok; non-trivial = body that fails or panics; distinct = distinct programs/plans",
@@ -286,7 +288,10 @@ prop(
 
 prop(
     id="C09",
-    stages=[dict(name="c09", pkg="c09", test="TestC09", access=[RUN_ACCESS, WORKERS_ACCESS], timeout_quick=300, timeout_thorough=3000)],
+    stages=[dict(name="c09", pkg="c09", test="TestC09", access=[RUN_ACCESS, WORKERS_ACCESS], timeout_quick=300, timeout_thorough=3000),
+            # "each evaluation's value is that tick's request to the pool, unchanged": the pool side of it
+            # (what the pool accepts for a tick is exactly the tick's value) is the conservation history stage
+            POOL_STAGE],
     rule="real runs of a trigger built with api.NewIterationWorker around a logging rate function (monotonic time, returned value): intervals 5-300ms, with and without distribution (then the 100ms sub-tick function is the one logged), "
          "constant / growing / irregular profiles, half of the runs under scheduling noise from busy goroutines; oracle = extracted predicate c09_ok: the k-th evaluation never happens before t0 + k*interval (one-sided, load-insensitive), "
          "and with plenty of instant workers started + dropped = sum of the evaluated values minus at most the last one; harness-side: the first evaluation happens right after setup (interval >= 100ms); non-trivial = run with >= 3 evaluations; distinct = distinct logs",
@@ -308,6 +313,7 @@ C05_DRIFT = ["internal/raterun::Runner.Start", "internal/raterun::Runner.Start.g
 prop(
     id="C05",
     stages=[dict(name="c05runs", pkg="c05", test="TestC05Runs", access=[RUN_ACCESS, WORKERS_ACCESS], timeout_quick=400, timeout_thorough=3000),
+            dict(name="c05precancel", pkg="c05", test="TestC05PreCancelled", access=[RUN_ACCESS, WORKERS_ACCESS], timeout_quick=400, timeout_thorough=3000),
             dict(name="c05locks", pkg="c05", test="TestC05Locks", access=[RUN_ACCESS, WORKERS_ACCESS], timeout_quick=400, timeout_thorough=3000),
             dict(name="c05gate", pkg="c05", test="TestC05Gate", access=[RUN_ACCESS, WORKERS_ACCESS], instrument=True, drift=C05_DRIFT,
                  timeout_quick=400, timeout_thorough=3000)],
